@@ -9,7 +9,8 @@ TAG=$(basename "$SD")
 WT=/tmp/sw_$TAG; VC=/tmp/vc_shared
 git -C /repo worktree remove --force $WT >/dev/null 2>&1
 git -C /repo worktree add --detach $WT HEAD >/dev/null 2>&1 || { echo "worktree failed"; exit 2; }
-git -C $WT apply "$SD/patch.diff" || { echo "apply failed"; git -C /repo worktree remove --force $WT; exit 2; }
+[ -s "$SD/patch.diff" ] || echo "(empty patch: the unchanged tree)"
+[ ! -s "$SD/patch.diff" ] || git -C $WT apply "$SD/patch.diff" || { echo "apply failed"; git -C /repo worktree remove --force $WT; exit 2; }
 mkdir -p $VC
 rsync -a --delete --exclude out --exclude harness/target --exclude .git --exclude evidence /verif/ $VC/
 mkdir -p $VC/evidence
